@@ -324,10 +324,10 @@ def main() -> int:
                 violations.append({"name": f"scenario:{name}", "unit": "replay/scenarios.py", "verdict": "failed", "hyps": 0})
                 break
         # last resort for the pool properties: seeded random histories of public-API operations with the properties'
-        # observable oracles (bounded: 3000 histories of <= 14 operations; labelled so, never counted as proved)
+        # observable oracles (bounded: 8000 histories of <= 14 operations; labelled so, never counted as proved)
         if not violations and re.fullmatch(r"C(0[1-9]|1[0-5])", prop):
-            code, out = driver.run_native("replay/random_histories.py", [prop, str(seed), "3000"], timeout=600, full=True)
-            bounded_fallback["random_histories"] = {"exit": code, "bound": "3000 histories, <=14 operations each, pools of size 1/2/3/unbounded", "output": out[-600:]}
+            code, out = driver.run_native("replay/random_histories.py", [prop, str(seed), "8000"], timeout=600, full=True)
+            bounded_fallback["random_histories"] = {"exit": code, "bound": "8000 histories, <=14 operations each, pools of size 1/2/3/unbounded", "output": out[-600:]}
             if code == 1:
                 rp = os.path.join(OUT, "replays", f"{prop}-random-history-{seed}.json")
                 try:
@@ -336,7 +336,7 @@ def main() -> int:
                     found = {"raw": out[-1500:]}
                 doc = {"property": prop, "unit": "; ".join(r["unit"] for r in undecided_units) or "(unknown obligations)", "obligation": "(deductive check undecided: " + "; ".join(str(r["error"]) for r in undecided_units)[:300] + ")",
                        "path": "", "baseline": "n/a", "verifier": {"verdict": "undecided"}, "found_by": "bounded random-history explorer (stand-in, not a proof)",
-                       "native_replay": {"reproduced": True, "failing_history": found, "command": f"PYTHONPATH={driver.REPO}/src {driver.PY} {HERE}/replay/random_histories.py {prop} {seed} 3000"}}
+                       "native_replay": {"reproduced": True, "failing_history": found, "command": f"PYTHONPATH={driver.REPO}/src {driver.PY} {HERE}/replay/random_histories.py {prop} {seed} 8000"}}
                 json.dump(doc, open(rp, "w"), indent=1)
                 replays.append(rp)
                 lines.append(f"VIOLATION property={prop} replay={rp}")
